@@ -104,6 +104,74 @@ def keyFields (row : FieldList) : List String → Option FieldList
 
 def keyType (t : TType) : Option FieldList := keyFields t.row t.key
 
+/-! ## Combinators: `Table.union(*tables, unify=…)` and `Table.join`
+
+`TableUnion._compute_type` (hail/ir/table_ir.py) returns the type of child 0 and checks nothing; the engine (`TypeCheck.scala`)
+requires every child to have the row type and key of child 0.  The model keeps the two apart: `unionChildren` is what the front
+end passes to `TableUnion` (after the `select` it inserts for `unify=True`), `unionReported` is the type the `Table` reports,
+`unionIR` is the type the IR implies — `none` when the children disagree. -/
+
+def valueFields (t : TType) : FieldList := t.row.filter (fun p => !t.key.contains p.1)
+
+/-- numeric promotion of `unify_exprs` (a type among the given ones that all others coerce to): bool < int32 < int64 < float32 < float64 -/
+def numRankH : HType → Option Nat
+  | .bool => some 0
+  | .int32 => some 1
+  | .int64 => some 2
+  | .float32 => some 3
+  | .float64 => some 4
+  | _ => none
+
+/-- `unify_exprs` on field types: all equal, or all numeric (then the widest); anything else is refused.  (Containers of
+different numeric element types are also coercible in the real code; the generated pipelines do not mix them.) -/
+def unifyFieldTypes : List HType → Option HType
+  | [] => none
+  | t0 :: r =>
+    if r.all (· == t0) then some t0
+    else if (t0 :: r).all (fun t => (numRankH t).isSome) then
+      (t0 :: r).foldl (fun (best : Option HType) t => match best with
+        | none => some t
+        | some b => if (numRankH b).getD 0 < (numRankH t).getD 0 then some t else some b) none
+    else none
+
+/-- field names of the value fields of all tables, in order of first appearance -/
+def discovered (ts : List TType) : List String := (ts.flatMap fun t => names (valueFields t)).eraseDups
+
+/-- the tables the front end hands to `TableUnion`; `none` = it refuses the call -/
+def unionChildren (unify : Bool) : List TType → Option (List TType)
+  | [] => none
+  | t0 :: rest =>
+    if rest.any (fun t => keyType t != keyType t0) || (keyType t0).isNone then none
+    else if !unify then (if rest.all (fun t => t.row == t0.row) then some (t0 :: rest) else none)
+    else if rest.all (fun t => valueFields t == valueFields t0) then some (t0 :: rest)      -- nothing to unify: passed on as they are
+    else
+      let ts := t0 :: rest
+      let fields := (discovered ts).mapM fun n =>
+        (unifyFieldTypes (ts.filterMap fun t => lookupF (valueFields t) n)).map fun u => (n, u)
+      match fields with
+      | none => none
+      | some fs => some (ts.map fun t => { t with row := ((keyType t).getD []) ++ fs })
+
+def unionReported (unify : Bool) (ts : List TType) : Option TType := (unionChildren unify ts).bind List.head?
+
+/-- the type the emitted `TableUnion` implies: that of the children, which must agree on row type and key -/
+def unionIR (unify : Bool) (ts : List TType) : Option TType :=
+  match unionChildren unify ts with
+  | some (c0 :: cs) => if cs.all (fun c => c.row == c0.row && c.key == c0.key) then some c0 else none
+  | _ => none
+
+/-- `Table.join(right)` without name collisions: `TableJoin._compute_type` — globals concatenated, the left key fields, the left
+value fields, the right value fields; the key is the left key.  The key TYPES (not the names) must agree. -/
+def join (l r : TType) : Option TType :=
+  match keyType l, keyType r with
+  | some kl, some kr =>
+    if kl.map (·.2) != kr.map (·.2) then none
+    else
+      let newNames := names (valueFields r) ++ names r.globals
+      if newNames.any (fun n => (allNames l).contains n) then none
+      else some ⟨l.globals ++ r.globals, kl ++ valueFields l ++ valueFields r, l.key⟩
+  | _, _ => none
+
 /-- every key field is a row field -/
 def WellKeyed (t : TType) : Prop := ∀ k ∈ t.key, (lookupF t.row k).isSome = true
 
